@@ -112,6 +112,34 @@ theorem counterexample : ¬ full_statement := by
     normSqProj, normSqProjOf, pace, Finset.sum_range_succ] at this
   norm_num at this
 
+/-- **What the open centring finding explains, exactly.**  Without any centring assumption, if
+`(ν_m, c_m)` and `(ν_l, c_l)` are RIGHT eigenpairs of the matrix handed to the solver, the numerator
+of the product-space Gram matrix of the coded weights is
+`ν_l c_mᵀQc_l + κ(μ·c_m)(μ·c_l)(ν_m + ν_l) + κ²(μ·c_m)(μ·c_l) μᵀBμ` (`μ` = column means of the
+univariate scores, `κ = N/(N−1)`).  The oracle uses this to refuse the cause flag
+`univariate_scores_not_centred` for any orthonormality defect the column means do not account for
+(e.g. left instead of right eigenvectors). -/
+theorem defect_explained_by_means (M N : ℕ) (hN : 2 ≤ N) (U ξ c : ℕ → ℕ → ℚ) (ν : ℕ → ℚ) (m l : ℕ)
+    (hm : ∀ i < M, mulVec M (solverMatrix M N U ξ) (col c m) i = ν m * c i m)
+    (hl : ∀ i < M, mulVec M (solverMatrix M N U ξ) (col c l) i = ν l * c i l) :
+    prodGramNum M (gramOfFactor M U) (weights M N ξ c) m l
+      = ν l * bil M (cov N ξ) (col c m) (col c l)
+        + (N : ℚ) / ((N : ℚ) - 1) * (dot M (colMean N ξ) (col c m) * dot M (colMean N ξ) (col c l)) * (ν m + ν l)
+        + ((N : ℚ) / ((N : ℚ) - 1)) ^ 2 * (dot M (colMean N ξ) (col c m) * dot M (colMean N ξ) (col c l))
+            * bil M (gramOfFactor M U) (colMean N ξ) (colMean N ξ) :=
+  prodGram_uncentred M N hN U ξ c ν m l hm hl
+
+/-- The uncentred second moment used for the weights is the covariance plus `N/(N−1)·μμᵀ`. -/
+theorem second_moment_decomposition (N : ℕ) (hN : 2 ≤ N) (ξ : ℕ → ℕ → ℚ) (j k : ℕ) :
+    secondMoment N ξ j k
+      = cov N ξ j k + (N : ℚ) / ((N : ℚ) - 1) * (colMean N ξ j * colMean N ξ k) :=
+  secondMoment_eq_cov_add N hN ξ j k
+
+example : secondMoment 2 (fun i _ => if i = 0 then 1 else 3) 0 0
+    = cov 2 (fun i _ => if i = 0 then 1 else 3) 0 0 + (2 : ℚ) / (2 - 1) * (colMean 2 (fun i _ => if i = 0 then 1 else 3) 0 * colMean 2 (fun i _ => if i = 0 then 1 else 3) 0) := by
+  have := second_moment_decomposition 2 (le_refl 2) (fun i _ => if i = 0 then (1 : ℚ) else 3) 0 0
+  simpa using this
+
 /-- The matrix `cholesky_matrix.T @ cholesky_matrix` is symmetric and positive
 semi-definite whatever the captured factor is: `xᵀ(UᵀU)x = ‖Ux‖² ≥ 0` (so the product-space
 form used above is a genuine semi-inner product). -/
